@@ -200,7 +200,7 @@ class ModbusTransactionManager(object):
                     if not response:
                         if len(self.transactions):
                             response = self.getTransaction(tid=0)
-                        else:
+                        if not response:
                             last_exception = last_exception or (
                                 "No Response received from the remote unit"
                                 "/Unable to decode response")
